@@ -31,7 +31,7 @@ func e2eTrack(c *e2eCtx, decoys bool) error {
 		"syntax tree+comments modulo artefacts, marker block shape, id numbering, component closure, service start, differing paths, then one of seven histories (nothing, delete markers, patch to N=0, git checkout, insert markers, a patch round, inserts into fresh files + patch), goat clean and its oracles; "+
 		"non-trivial = at least one tracking call was inserted", n, decoys)
 	c.parallel(n, func(i int, r *rand.Rand) {
-		o := proj.Opts{InScope: true, RootMain: r.Intn(3) == 0, Asm: true, Decoys: decoys, GoVersions: true}
+		o := proj.Opts{InScope: true, RootMain: r.Intn(3) == 0, Asm: true, Decoys: decoys, GoVersions: true, IgnoreMidLib: true}
 		s, err := c.newScenario(i, r, o, func(r *rand.Rand, old string) proj.Config {
 			cfg := randomConfig(r, old)
 			if decoys {
